@@ -603,14 +603,14 @@ def s_obj(draw, sub):
 _VALUE_CACHE: dict = {}
 
 
-def s_value(d: int, top: bool = False):
-    key = (d, top)
+def s_value(d: int, top: bool = False, objects: bool = True):
+    key = (d, top, objects)
     if key in _VALUE_CACHE:
         return _VALUE_CACHE[key]
     if d == 0:
         s = S_LEAF
     else:
-        sub = s_value(d - 1)
+        sub = s_value(d - 1, objects=objects)
         seq = st.lists(sub, max_size=3)
         homog = st.one_of(st.lists(st.sampled_from(SMALL_INTS), max_size=4), st.lists(S_STR, max_size=3))
         conts = [
@@ -631,7 +631,7 @@ def s_value(d: int, top: bool = False):
             s_nd(),
             s_series(),
             s_df(),
-            s_obj(sub),
+            *([s_obj(sub)] if objects else []),
         ]  # fmt: skip
         s = st.one_of(*conts, S_LEAF) if top else st.one_of(S_LEAF, S_LEAF, S_LEAF, S_LEAF, *conts)
     _VALUE_CACHE[key] = s
@@ -1061,7 +1061,9 @@ def s_pair(draw, ops, base=None):
 
 @st.composite
 def s_independent(draw):
-    return {"a": draw(s_value(2, top=True)), "b": draw(s_value(2, top=True)), "op": "independent", "target": "-"}
+    # (no plain objects here: an accidental equal pair of objects could not be told from a pickle-fallback artefact)
+    s = s_value(2, top=True, objects=False)
+    return {"a": draw(s), "b": draw(s), "op": "independent", "target": "-"}
 
 
 # ---- hard corner generators ---------------------------------------------------------------------
@@ -1186,9 +1188,11 @@ def _diff_pairs(v1, v2, acc: list) -> list:
     if t is type(v2):
         if t in (list, tuple, collections.deque) and len(v1) == len(v2):
             pairs = list(zip(v1, v2))
-        elif t in (dict, collections.OrderedDict, collections.defaultdict) and list(v1) == list(v2):
+        elif t is collections.OrderedDict and list(v1) == list(v2):
             pairs = [(v1[k], v2[k]) for k in v1]
-        elif isinstance(v1, _Plain) and list(v1.__dict__) == list(v2.__dict__):
+        elif t in (dict, collections.defaultdict) and set(v1) == set(v2):  # aligned by key, whatever the insertion order
+            pairs = [(v1[k], v2[k]) for k in v1]
+        elif isinstance(v1, _Plain) and set(v1.__dict__) == set(v2.__dict__):
             pairs = [(v1.__dict__[k], v2.__dict__[k]) for k in v1.__dict__]
     if pairs is None:
         acc.append((v1, v2))
@@ -1566,17 +1570,17 @@ def campaigns(tier):
     base_equal = st.one_of(top, s_wrapped(s_reorderable()), s_wrapped(s_reorderable()), s_wrapped(s_nd()))
     base_look = st.one_of(top, top, top, s_wrapped(s_nd()), s_wrapped(s_series(2)), s_wrapped(s_df(2, 2)), s_wrapped(s_value(2)))
     return [
-        Campaign("equal", body_pair, s_pair(EQUAL_OPS, base_equal), quick=3200, thorough=80000,
+        Campaign("equal", body_pair, s_pair(EQUAL_OPS, base_equal), quick=3200, thorough=50000,
                  describe="pairs intended equal: same recipe, permuted insertion order, other array buffer"),
-        Campaign("lookalike", body_pair, s_pair(DIFFER_OPS[:5] + TOWER_OPS + DIFFER_OPS[5:], base_look), quick=6400, thorough=160000,
+        Campaign("lookalike", body_pair, s_pair(DIFFER_OPS[:5] + TOWER_OPS + DIFFER_OPS[5:], base_look), quick=6400, thorough=100000,
                  describe="pairs intended different: one structural edit (retype/leaf/length/order/dtype/shape/index/...)"),
-        Campaign("independent", body_pair, s_independent(), quick=1600, thorough=40000,
+        Campaign("independent", body_pair, s_independent(), quick=1600, thorough=25000,
                  describe="two independently drawn values"),
-        Campaign("hard", body_pair, s_hard(), quick=1600, thorough=30000,
+        Campaign("hard", body_pair, s_hard(), quick=1600, thorough=20000,
                  describe="un-orderable / partially ordered keys, object arrays with unhashable elements, duplicate labels"),
-        Campaign("cross", body_cross, cross, quick=200, thorough=3000,
+        Campaign("cross", body_cross, cross, quick=200, thorough=2000,
                  describe="batches of 14-15 recipes rebuilt in two worker interpreters with other hash seeds"),
-        Campaign("memo", body_memo, s_memo(), quick=1600, thorough=40000,
+        Campaign("memo", body_memo, s_memo(), quick=1600, thorough=25000,
                  describe="memoize-d tracer over call sequences, five cache configurations"),
     ]  # fmt: skip
 
